@@ -295,6 +295,20 @@ def prove_network(src_root, ex: Explorer):
         ctx.prove(f'C20.network.set_{which}_speed_limit.atomic', z3.BoolVal(it.aio.yields == []))
     ex.run(path, 'network')
 
+    def load(ctx: Ctx):
+        """load_speed_limits() (settings changed): BOTH limits are applied with the configured values, also 0 (= remove the limit)"""
+        it = mk(src_root, ctx)
+        d, u = [0, 50][ctx.choose(2, 'download')], [0, 30][ctx.choose(2, 'upload')]
+        limits = Stub('limits', download_speed_kbps=d, upload_speed_kbps=u)
+        net = new(it, NET, 'Network', _settings=Stub('settings', network=Stub('network', limits=limits)))
+        calls = []
+        it.hooks[f'{NET}:Network.set_download_speed_limit'] = lambda it2, f, a, k: calls.append(('download', a[1]))
+        it.hooks[f'{NET}:Network.set_upload_speed_limit'] = lambda it2, f, a, k: calls.append(('upload', a[1]))
+        it.call(it.getattr(net, 'load_speed_limits'), [], {})
+        ctx.prove(f'C20.network.load_speed_limits[download={d},upload={u}]', sorted(calls) == [('download', d), ('upload', u)],
+                  f'configured limits (download {d}, upload {u}) were applied as {calls}: a removed or changed limit is not taken over')
+    ex.run(load, 'load-limits')
+
     def finalize(ctx: Ctx):
         it = mk(src_root, ctx)
         net = new(it, NET, 'Network')
@@ -339,6 +353,46 @@ def prove_connection_use(src_root, ex: Explorer):
         ctx.prove('C20.receive_file.asks-limiter-per-chunk', len(lim.attrs['take_tokens'].calls) == len(asked),
                   'every read must be preceded by its own take_tokens()')
     ex.run(recv, 'receive_file-grant')
+
+    def recv_iteration(ctx: Ctx):
+        """an ARBITRARY iteration of the receive loop: every integer local the loop carries (they are 0 when the loop is first reached) holds
+        an arbitrary non-negative value; the read of this iteration still asks for at most what THIS take_tokens() granted - credit may
+        not be carried from one iteration to the next outside the bucket (the bucket's cap is what bounds a burst)"""
+        from pyvc.interp import ContinueEx, BreakEx, ReturnEx
+        it = mk(src_root, ctx)
+        c = Obj(cls(it, CONN, 'PeerConnection'))
+        grant = z3.Int('grant')
+        ctx.assume(grant >= 1)
+        asked = []
+        lim = Stub('limiter', take_tokens=Recorder('take_tokens', ret=Sym(grant, 'int'), is_async=True))
+        c.attrs['download_rate_limiter'] = lim
+
+        def c_receive_data(it2, f, args, kwargs):
+            asked.append(args[1])
+            return A.SimpleAwaitable(it2.aio, 'receive_data', lambda it3: None)
+        it.hooks[f'{CONN}:PeerConnection.receive_data'] = c_receive_data
+
+        def loop(it2, node, env):
+            carried = [k for k, v in env.vars.items() if isinstance(v, int) and not isinstance(v, bool) and v == 0]
+            for k in carried:
+                h = ctx.fresh_int('carried_' + k)
+                ctx.assume(h >= 0)
+                env.vars[k] = Sym(h, 'int')
+            if not it2.decide(it2.eval(node.test, env)):
+                return
+            try:
+                it2.exec_block(node.body, env)
+            except (ContinueEx, BreakEx):
+                pass
+        it.loop_specs[(f'{CONN}:PeerConnection.receive_file', 0)] = loop
+        try:
+            run(it, it.getattr(c, 'receive_file'), Stub('fh'), Sym(z3.Int('size'), 'int'))
+        except PyRaise as pr:
+            ctx.fail('C20.receive_file.iteration.reads-at-most-grant', repr(pr.exc))
+            return
+        ctx.prove('C20.receive_file.iteration.reads-at-most-grant', z3.And(*[z3int(a) <= grant for a in asked]) if asked else z3.BoolVal(True),
+                  'in some iteration more bytes are read than the limiter granted for it (credit carried over between iterations escapes the cap of the bucket)')
+    ex.run(recv_iteration, 'receive_file-iteration')
 
     def send(ctx: Ctx):
         it = mk(src_root, ctx)
